@@ -1,11 +1,11 @@
 \* C03 quick: pairs of single-component versions (upstream only), <= 3 characters over
-\* 0 1 9 A a . ~   (399 strings, 159 201 pairs)
+\* 0 1 9 a . ~   (258 strings, 66 564 pairs; upper case comes in with the concretization)
 CONSTANTS
   HashOnString = FALSE
   TildeOrderZero = FALSE
   Epochs <- S_none
   Revs <- S_none
-  UpChars = {48, 49, 57, 65, 97, 46, 126}
+  UpChars = {48, 49, 57, 97, 46, 126}
   MaxUp = 3
   Seps = FALSE
   Triples = FALSE
